@@ -41,7 +41,7 @@ class WinCollector(Collector):
     """collectors are systems too: their constructor forwards the window"""
 
     def __init__(self, id, model, log, **kw):
-        super().__init__(id, model, **kw)
+        super().__init__(id, model, priority=0, **kw)       # same priority as the plain systems: order = registration order (C01)
         self.log = log
 
     def collect(self):
